@@ -118,6 +118,12 @@ def execute(schedule, ctx):
         return
     n = len(span)
     cls = type(m)
+    # the script generator's own account is the ground truth: the left-hand sides it wrote are the endogenous variables
+    # (whatever the class under test lists), every other name it used must never change
+    if set(endo) != set(spec['endo']):
+        ctx.log('endogenous-lists-differ', sorted(endo), sorted(spec['endo']))
+        ctx.probe('class-lists-other-endogenous-variables-than-the-script-assigns')
+    endo = [x for x in spec['endo']]
     lags, leads = spec['lags'], spec['leads']
     if (cls.LAGS, cls.LEADS) != (lags, leads):
         # the workload generator's own count of lags/leads is the ground truth for feasibility
